@@ -199,6 +199,28 @@ def rule_wiring(ctx, repo):
     ms = repo.get_function(EV + '_CheckMultiSig')
     am = assigns(ms)
     r.check('FindAndDelete(script, CScript([sig]))' in am.get('script', []), 'multisig:subscript', ms.site, 'every signature push removed from the subscript', 'multisig subscript handling: %s' % am.get('script'))
+    # ... every one of them: the removal runs once per signature on the stack, over stack[-isig - k] for k in range(sigs_count)
+    fad = [n for n in ast.walk(ms.node) if isinstance(n, ast.Call) and norm(n.func) == 'FindAndDelete']
+    for c_ in fad:
+        lp_ = getattr(c_, '_parent', None)
+        while lp_ is not None and not isinstance(lp_, (ast.For, ast.While, ast.FunctionDef)):
+            lp_ = getattr(lp_, '_parent', None)
+        if not isinstance(lp_, ast.For):
+            r.undecided('multisig:subscript:all-signatures', common.site_of(ms, c_), 'the signature removal is not inside a for loop')
+            continue
+        it_ = norm(lp_.iter)
+        var_ = norm(lp_.target)
+        defs_ = [norm(s_.value) for s_ in lp_.body if isinstance(s_, ast.Assign) and len(s_.targets) == 1 and norm(s_.targets[0]) == 'sig']
+        picked = defs_[0] if len(defs_) == 1 else None
+        if it_ == 'range(sigs_count)' and picked in ('stack[-isig - %s]' % var_, 'stack[-(isig + %s)]' % var_, 'stack[-%s - isig]' % var_):
+            r.ok('multisig:subscript:all-signatures', common.site_of(ms, lp_), 'one removal per signature: %s over %s' % (picked, it_))
+        elif re.match(r'^range\((\d+, )?sigs_count( [-+] \d+)?\)$', it_) and picked and re.match(r'^stack\[-isig( [-+] \w+)*\]$', picked):
+            r.violated('multisig:subscript:all-signatures', common.site_of(ms, lp_), 'the signature removal runs over `%s` with `sig = %s`: not every one of the sigs_count signatures '
+                       '(stack[-isig - k], k = 0 .. sigs_count-1) is removed from the subscript' % (it_, picked), sure=True)
+        else:
+            r.undecided('multisig:subscript:all-signatures', common.site_of(ms, lp_), 'the signature removal runs over `%s` (sig = %s): whether that is every signature on the stack is not decided' % (it_[:60], picked))
+    if not fad:
+        r.undecided('multisig:subscript:all-signatures', ms.site, 'no FindAndDelete call in _CheckMultiSig')
     # the operands of every _CheckSig call in the loop, read through locals defined once
     once = {k: v[0] for k, v in am.items() if len(v) == 1 and k.isidentifier()}
     calls_ = [c_ for c_ in common.iter_calls(ms.node) if norm(c_.func) == '_CheckSig' and len(c_.args) >= 2]
